@@ -313,7 +313,10 @@ func c31SkCase(c *Ctx, r *Rand) {
 		c.Case(witness, true, "leg=sk", "sk-timeout")
 		return
 	}
-	if res.neverCancelled {
+	if res.neverCancelled || (len(res.log) < k && strings.Contains(src, "<1000000;")) {
+		// a `for ((;;))`-like loop whose body never reaches an atom: the k-th atom, hence the
+		// cancellation, never happens; the real loop runs its million iterations (or hits the
+		// watchdog), the model would need that much fuel — nothing to compare
 		c.Case(witness, false, "leg=sk", "sk-no-atom-loop-skipped")
 		return
 	}
